@@ -805,12 +805,22 @@ func runPartitionShape(c *Ctx, cp *ssa.Function, ps *partShape, b *binder) {
 					continue
 				}
 				base := ia.X
-				for k := 0; k < 4; k++ {
-					sl, isSl := base.(*ssa.Slice)
-					if !isSl {
-						break
+				for k := 0; k < 6; k++ {
+					if sl, isSl := base.(*ssa.Slice); isSl {
+						base = sl.X
+						continue
 					}
-					base = sl.X
+					// the pairing loop may sit in a helper of the partition function that is handed the list (or a
+					// window into it): the parameter stands for what the one call site passes
+					if prm, isPrm := base.(*ssa.Parameter); isPrm && prm.Parent() != cp {
+						callers := p.Callers(prm.Parent())
+						idx := paramIndex(prm)
+						if len(callers) == 1 && callers[0].Caller == cp && idx >= 0 && idx < len(callers[0].Site.Common().Args) {
+							base = callers[0].Site.Common().Args[idx]
+							continue
+						}
+					}
+					break
 				}
 				if base != stopTimes {
 					okPair = false
